@@ -161,7 +161,20 @@ pub fn similar_args() -> Vec<Value> {
         Value::Int(-1),
         pool::dt(1, 0),
         pool::du(1, 0),
+        // "twins": equal under Value's ==, yet distinguishable by a function (sign of zero, decimal scale, NaN).
+        // For these only the observed values are asserted (transparency), not the invocation counts.
+        Value::Float(0.0),
+        Value::Float(-0.0),
+        pool::dec(10, 1),
+        pool::dec(100, 2),
+        Value::Float(f64::NAN),
+        Value::Vec(vec![Value::Float(-0.0)]),
     ]
+}
+
+/// argument renderings for which "the same argument" is not determined by the property
+pub fn is_twin_key(arg_key: &str) -> bool {
+    ["f0e0", "f-0.0", "d10e-1", "d100e-2", "fNaN"].iter().any(|t| arg_key.contains(t))
 }
 
 pub const PROBE_NAMES: [&str; 4] = ["fa", "fb", "fc", "fd"];
